@@ -86,7 +86,7 @@ static int c02_main(int argc,char **argv){
     int n=split(line,tok,16);
     if(n==0){ free(line); continue; }
     if(!strcmp(tok[0],"case")){
-      printf("== case %s\n",n>1?tok[1]:"?"); fflush(stdout);
+      printf("== case %s\n",n>1?tok[1]:"?"); fflush(stdout); case_watchdog();
       c2_clear();
     }else if(!strcmp(tok[0],"live")){
       vf_live("");
